@@ -77,6 +77,22 @@ CHECKS = {
    technique="explicit-state model checking (stateright BFS with canonical-state de-duplication) over histories of edit batches on the real InputBuffer, plus bounded string enumeration on the real tokenizer",
    text="Every history of up to `depth` edit batches (all single replacements and all ordered non-overlapping pairs, by empty/shorter/longer/multi-byte strings) from every short original string is applied to the real InputBuffer; monotonicity, anchoring, boundary preservation, identity on unreplaced characters and the char/byte tables after build() are checked on every reachable state; begin_c/end_c are checked on the C01 string trees.",
    ref="DESIGN.md §3 C08"),
+ "C18": dict(
+   engine="E2-schedules",
+   technique="stateless model checking of the real code under a controlled cooperative scheduler (CHESS-style iterative preemption bounding over sched_point hooks; real OS threads, every hand-off owned by the explorer)",
+   text="Every interleaving at hook granularity of 2 threads x 2 analyses, 3 threads x 1 analysis (one of them sentence splitting) and 2 threads x 1 short analysis over one shared Arc<JapaneseDictionary> (all three OOV provider types, both path-rewrite plugins, input plugins, two user dictionaries) with at most 0, 1, 2 preemptions is executed on the real code: each thread's morphemes must equal its single-threaded result, the dictionary fingerprint must not change, no thread may panic or block outside the scheduler; the first schedules are replayed twice to show the harness owns the nondeterminism. Send+Sync of the dictionary is asserted at compile time.",
+   note="Scheduling points exist only at the hook sites; races inside one section between two hooks, memory-ordering effects and the internals of regex / lazy_static / std::sync::Once are not explored. The Python half rests on the shared core plus PyO3's exclusive borrow while the GIL is released; C19's driver adds a sampled (non-deciding) Python thread run. " + TRUSTED,
+   ref="DESIGN.md §3 C18"),
+ "C19": dict(
+   engine="E4-external",
+   technique="bounded-exhaustive enumeration of command-line inputs and Python API call sequences run through the real binary / extension out of process, differential against the in-process library (explicit enumeration of operation sequences up to a depth)",
+   text="CLI: every file of at most 2 (thorough 3) lines over five line bodies x LF / CRLF / missing final terminator x seven flag sets is fed to the real `sudachi` binary built from /repo; stdout must equal byte for byte what the library and the documented column / wakati format give for each line without its terminator. Python: every call sequence up to depth 2 (thorough 3) over 27 operations (tokenize with and without per-call mode and out=, a failing call with per-call mode, Morpheme.split with and without out=, lookup with and without out=, holding a morpheme across list reuse) for four tokenizer configurations on the real extension: results equal the library's, text[begin:end] is the raw surface, per-call modes do not stick, the interpreter finishes.",
+   note="Subjects run out of process (E4); the pre_tokenizer path needs the `tokenizers` package, which is not installed, and is not exercised; the Python thread run is a sample. " + TRUSTED,
+   ref="DESIGN.md §3 C19"),
+ "C20": dict(
+   technique="explicit-state model checking (stateright BFS) over parameter deviations (baseline, all singles, all pairs) of a configuration with every OOV provider type and the inhibit-connection plugin, four matrix shapes, real loader + analysis with debug assertions",
+   text="For matrices 1x1, 3x3, 2x3 and 3x2 every single and every pair of deviations of leftId / rightId / cost of SimpleOov and RegexOov, the ids and cost of an unk.def line and both members of an inhibitPair over {-1,0,n-1,n,n+1,m-1,m,m+1,32767,32768,65535,65536,-32768,-32769}, and POS absent x userPOS allow/forbid: loading must fail exactly when the reference (the dimension a value indexes in ConnectionMatrix::cost, i16 range, POS existence in setup order) says so; after a successful load only the inhibited cell differs from the matrix text and probes that use every provider at sentence start, middle and end analyse without panic.",
+   ref="DESIGN.md §3 C20"),
 }
 
 NOT_YET = {}
